@@ -20,7 +20,8 @@ RULE = ("cases = (env, entry, 2-4 reset keys, plan of <= 12 steps per key); ever
 ASSUMPTIONS = [
     "float leaves compared with rtol 1e-5 / atol 1e-6 across transformations (measured 1e-7 differences on the unchanged "
     "tree), bitwise for repetitions under the same transformation and for int/bool/key leaves",
-    "eager execution is rationed (seconds per call): 1 eager reset and 3 eager steps per configuration in the quick tier",
+    "eager execution is rationed (seconds per call): per configuration one pure-eager chain (reset + 4 steps, 10 in thorough) "
+    "plus 1 eager reset and 2 eager steps on stored calls in the quick tier",
 ]
 SCAN_LEN = 10
 VMAP_B = 3
@@ -94,7 +95,7 @@ class Rig:
             return jax.lax.scan(body, s, acts)
 
         self.scan = jax.jit(rollout)
-        self.eager_budget = {"reset": 1, "step": 3}
+        self.eager_budget = {"reset": 1, "step": 2, "chain": 4}
 
 
 def run_case(ctx, rig, keys, plans, picks, fail, eager_first):
@@ -174,6 +175,32 @@ def run_case(ctx, rig, keys, plans, picks, fail, eager_first):
         if d:
             fail("transform.eager_vs_jit", f"eager {kind} differs from jitted {kind}", f"call #{ci} depth {depth}: {d}")
 
+    # 3a'. one pure-eager chain per configuration: eager reset, then eager steps fed with the *eager* outputs
+    # (plain per-call Python execution; states may then hold Python scalars), compared with the jitted chain
+    if rig.eager_budget.get("chain", 0) > 0 and len(first_actions) >= 1:
+        import jax.numpy as jnp
+
+        n_chain = min(rig.eager_budget["chain"], len(first_actions))
+        rig.eager_budget["chain"] = 0
+        key0 = envs.make_key(keys[0])
+        canon = lambda t: jax.tree_util.tree_map(lambda x: np.asarray(jnp.asarray(x)), t)  # noqa: E731
+        s_e, ts_e = b.env.reset(key0)
+        d = treecmp.diff(canon((s_e, ts_e)), calls[0][2], exact=False)
+        ctx.evals()
+        if d:
+            fail("transform.eager_chain", "pure-eager chain differs from the jitted chain", f"reset: {d}")
+        for t in range(n_chain):
+            snap_s = snapshot(s_e)
+            s_e, ts_e = b.env.step(s_e, first_actions[t])
+            ctx.evals()
+            ctx.count("eager_chain_steps")
+            ctx.nontrivial(b.name, b.entry, "eager_chain", keys[0], t)
+            d = treecmp.diff(canon((s_e, ts_e)), first_outs[t], exact=False)
+            if d:
+                fail("transform.eager_chain", "pure-eager chain differs from the jitted chain", f"step {t + 1}: {d}")
+                break
+            del snap_s
+
     # 3b. vmap: batch of states from different episodes / depths
     step_calls = [c for c in calls if c[0] == "step"]
     if len(step_calls) >= VMAP_B:
@@ -241,7 +268,8 @@ def run_item(item, seed, tier):
     env, entry = item["env"], item["entry"]
     with ctx.guard(env, {"env": env, "entry": entry, "stage": "construct"}):
         rig = Rig(env, entry)
-        rig.eager_budget = {"reset": 1, "step": item.get("eager_steps", 3)}
+        rig.eager_budget = {"reset": 1, "step": max(1, item.get("eager_steps", 3) - 1),
+                            "chain": 4 if tier == "quick" else 10}
         static_checks(ctx, rig)
         counter = {"n": 0}
 
@@ -283,7 +311,7 @@ def replay(case):
         if case.get("static"):
             static_checks(ctx, rig)
             return list(ctx.failures.values())
-        rig.eager_budget = {"reset": 1, "step": 4}
+        rig.eager_budget = {"reset": 1, "step": 4, "chain": 10}
 
         def fail(oracle, sig, msg):
             ctx.fail(oracle, env, sig, msg, case)
